@@ -20,6 +20,24 @@ pub fn c04(eng: &mut Engine, rng: &mut Rng, thorough: bool, out: &mut Out) -> Ca
         let plan = gen_honest_plan(rng, &eng.cast, w3c, with_rev);
         let o = honest_vopts(&eng.cast, &plan);
         let cls = format!("honest:{}:{}", if w3c { "w3c" } else { "legacy" }, if with_rev { "rev" } else { "plain" });
+        // every third plan is broken in one way the prover must refuse (exercises the prover model's error paths)
+        let mut plan = plan;
+        let broken = i % 3 == 2;
+        if broken {
+            break_plan(rng, &mut plan, eng);
+        }
+        let r = if w3c { eng.build_w3c(&plan).map(|_| ()) } else { eng.build_legacy(&plan).map(|_| ()) };
+        if let Some((mut pc, imp)) = eng.last_present.take() {
+            pc["fam"] = json!(if w3c { "c04.present_w3c" } else { "c04.present_legacy" });
+            pc["cls"] = json!(if broken { "broken-selection" } else { "honest-selection" });
+            pc["dir"] = json!("exact");
+            out.count(&format!("present:{}:{}", if broken { "broken" } else { "honest" }, if imp.get("err").is_some() { "err" } else { "ok" }));
+            cases.push((pc, imp));
+        }
+        if broken {
+            let _ = r;
+            continue;
+        }
         if w3c {
             match eng.build_w3c(&plan) {
                 Ok(b) => emit_w3c(eng, out, &mut cases, "c04.w3c", &cls, "", Some(true), &b.pres, &b.ghosts, &b.agg, true, &b.req, &o, "verdict"),
@@ -30,6 +48,19 @@ pub fn c04(eng: &mut Engine, rng: &mut Rng, thorough: bool, out: &mut Out) -> Ca
                 Ok(b) => emit_legacy(eng, out, &mut cases, "c04.legacy", &cls, "", Some(true), &b.pres, &b.ghosts, &b.agg, &b.req, &o, "verdict"),
                 Err(e) => out.oracle_fail("honest legacy presentation could not be built", &json!({"fam":"c04.legacy","cls":cls,"plan": format!("{plan:?}")}), &json!({"err": e})),
             }
+        }
+    }
+    // F19 (known finding): W3C value restriction whose tag spells the attribute as the request does, not as the credential does
+    {
+        let mut plan = basic_plan(rng, eng, "a_alice", false);
+        plan.refs[0].kind = Kind::Single(" NAME ".into());
+        plan.refs[0].restrictions = Some(json!({"attr:: NAME ::value": "Alice"}));
+        let o = plain_opts();
+        if let Ok(b) = eng.build_w3c(&plan) {
+            emit_w3c(eng, out, &mut cases, "c04.w3c", "honest:w3c:value-restriction-name-respelled", "C04:w3c:value-restriction-name-respelled", Some(true), &b.pres, &b.ghosts, &b.agg, true, &b.req, &o, "verdict");
+        }
+        if let Ok(b) = eng.build_legacy(&plan) {
+            emit_legacy(eng, out, &mut cases, "c04.legacy", "honest:legacy:value-restriction-name-respelled", "", Some(true), &b.pres, &b.ghosts, &b.agg, &b.req, &o, "verdict");
         }
     }
     cases
@@ -953,4 +984,46 @@ pub fn c12(eng: &mut Engine, rng: &mut Rng, thorough: bool, out: &mut Out) -> Ca
     // byte-level: mutated and random bytes into every from-JSON entry point (test, not theorem: DESIGN §6 C12)
     crate::fuzz::parse_fuzz(eng, rng, if thorough { 400_000 } else { 20_000 }, out);
     cases
+}
+
+/// make a selection the prover must (or may) refuse
+fn break_plan(rng: &mut Rng, plan: &mut Plan, eng: &Engine) {
+    let ci = 0usize;
+    let held = plan.creds[ci].held;
+    let vals = eng.cast.creds[held].values.clone();
+    let k = plan.refs.len();
+    match rng.below(7) {
+        0 => {
+            // predicate that does not hold
+            if let Some((n, v)) = vals.iter().find(|(_, v)| v.parse::<i32>().is_ok()) {
+                let v: i32 = v.parse().unwrap();
+                plan.refs.push(RefPlan { referent: format!("bad{k}"), kind: Kind::Pred(n.clone(), "GT", v), cred: Some(ci), revealed: false, restrictions: None, non_revoked: None });
+            }
+        }
+        1 => plan.refs.push(RefPlan { referent: format!("bad{k}"), kind: Kind::Single("no such attribute".into()), cred: Some(ci), revealed: true, restrictions: None, non_revoked: None }),
+        2 => plan.refs.push(RefPlan { referent: format!("bad{k}"), kind: Kind::Single("no such attribute".into()), cred: Some(ci), revealed: false, restrictions: None, non_revoked: None }),
+        3 => {
+            // predicate on a non-numeric attribute
+            if let Some((n, _)) = vals.iter().find(|(_, v)| v.parse::<i32>().is_err()) {
+                plan.refs.push(RefPlan { referent: format!("bad{k}"), kind: Kind::Pred(n.clone(), "GE", 0), cred: Some(ci), revealed: false, restrictions: None, non_revoked: None });
+            }
+        }
+        4 => {
+            // an attribute revealed and under a predicate in the same credential
+            if let Some((n, v)) = vals.iter().find(|(_, v)| v.parse::<i32>().is_ok()) {
+                let v: i32 = v.parse().unwrap();
+                plan.refs.push(RefPlan { referent: format!("bad{k}a"), kind: Kind::Single(n.clone()), cred: Some(ci), revealed: true, restrictions: None, non_revoked: None });
+                plan.refs.push(RefPlan { referent: format!("bad{k}b"), kind: Kind::Pred(n.clone(), "GE", v), cred: Some(ci), revealed: false, restrictions: None, non_revoked: None });
+            }
+        }
+        5 => {
+            // a group with a member the credential lacks
+            plan.refs.push(RefPlan { referent: format!("bad{k}"), kind: Kind::Group(vec![vals[0].0.clone(), "missing".into()]), cred: Some(ci), revealed: rng.chance(1, 2), restrictions: None, non_revoked: None });
+        }
+        _ => {
+            // timestamp without revocation state
+            plan.creds[ci].state_list = None;
+            plan.creds[ci].ts_only = Some(20);
+        }
+    }
 }
